@@ -925,7 +925,13 @@ def generate(seed: T.Any, index: int = 0, force_blocks: T.Optional[T.Sequence[st
         expr = ' + '.join(['0'] + [m for _, m in um] + [f'{c}()' for c in calls])
         src.append(f'int main(void) {{ printf("{nm} %d\\n", {expr}); return 0; }}')
         P.files[P.path(d, f'{nm}_main.c')] = '\n'.join(src) + '\n'
-        P.emit(d, f"executable('{nm}', '{nm}_main.c'{extra}{P.deps_kw(used)})")
+        if used and P.flip('app.nested_dep', 0.3):
+            # the generated headers travel through a dependency of a dependency
+            P.emit(d, f"{nm}_deps = declare_dependency(dependencies: [{', '.join(e.var for e in used)}])")
+            P.emit(d, f"executable('{nm}', '{nm}_main.c'{extra}, dependencies: {nm}_deps)")
+            P.feat('nested-declare_dependency')
+        else:
+            P.emit(d, f"executable('{nm}', '{nm}_main.c'{extra}{P.deps_kw(used)})")
         P.ntargets += 1
         P.exes.append({'name': nm, 'path': P.path(d, nm), 'stdout': f'{nm} {tot}\n'})
     root = head + P.lines['']
